@@ -246,6 +246,7 @@ func c18Extras3(c *Ctx) {
 	w := c.W
 	bitStringPureRule(c)
 	digitArgsRule(c)
+	c18Extras4(c)
 	fn := w.Fn("z/encoding/asn1.parseField")
 	if fn == nil {
 		c.Undecided("R-SIBLING", "encoding/asn1.parseField", "anchor", "-", "not found")
@@ -283,6 +284,7 @@ func c18Extras3(c *Ctx) {
 // range- and minimality-checked).
 func c19Extras3(c *Ctx) {
 	w := c.W
+	c19Extras4(c)
 	root := w.Fn("z/encoding/asn1.parseTagAndLength")
 	if root == nil {
 		c.Undecided("R-VSET", "encoding/asn1.parseTagAndLength", "anchor", "-", "not found")
@@ -510,6 +512,10 @@ func (c *Ctx) loopSkipCut(rule string, fn *ssa.Function, label string, inLoop fu
 // not a string; an empty string is a value like any other and must reach its typed field.
 func nameFillRule(c *Ctx) {
 	w := c.W
+	if c.Prop == "C22" {
+		// OriginalRDNS keeps the slice the decoder handed out: it must own its storage
+		c.borrow(c18Extras4, func(o *Obligation) bool { return o.Rule == "R-FRESH" })
+	}
 	fn := w.Fn("(*z/x509/pkix.Name).FillFromRDNSequence")
 	if fn == nil {
 		c.Undecided("R-CUT", "pkix.Name.FillFromRDNSequence", "anchor", "-", "not found")
@@ -539,6 +545,7 @@ func nameFillRule(c *Ctx) {
 // caller's buffer may hold anything), i.e. no Put*/copy into the output is conditional.
 func c16Extras3(c *Ctx) {
 	w := c.W
+	c.ShortReadObligations("z/ct", "z/x509/ct", "z/x509/revocation/microsoft", "z/x509/revocation/google")
 	for _, name := range []string{"z/ct.serializeV1SCTHere", "z/x509/ct.serializeV1SCTHere"} {
 		fn := w.Fn(name)
 		if fn == nil {
@@ -581,6 +588,7 @@ func c16Extras3(c *Ctx) {
 // (filling a bounded channel before any consumer exists blocks for good once the ranges outnumber its capacity).
 func c17Extras3(c *Ctx) {
 	w := c.W
+	c17Extras4(c)
 	fn := w.Fn("(*z/ct/scanner.Scanner).Scan")
 	if fn == nil {
 		c.Undecided("R-ORDER", "ct/scanner.Scanner.Scan", "anchor", "-", "not found")
